@@ -70,7 +70,7 @@ Expr gen_num_raw(Ctx& c, int depth) {
   std::vector<int> choices;
   unsigned f = c.features;
   if (f & F_ARITH) { choices.insert(choices.end(), {100, 100, 101, 102, 103}); }
-  if (f & F_QUAD) { choices.insert(choices.end(), {110, 111, 112, 113}); }
+  if (f & F_QUAD) { choices.insert(choices.end(), {110, 111, 112, 113}); if (f & F_ABSMINMAX) choices.push_back(114); }
   if (f & F_ABSMINMAX) { choices.insert(choices.end(), {120, 121, 122}); }
   if (f & F_COUNT) { choices.insert(choices.end(), {130, 131}); }
   if (f & F_IF) { choices.push_back(140); }
@@ -93,6 +93,10 @@ Expr gen_num_raw(Ctx& c, int depth) {
     case 110: return Expr::Op(2, {var_leaf(c), var_leaf(c)});
     case 111: return Expr::Op(77, {affine(c)});
     case 112: return Expr::Op(2, {gen_num(c, depth - 1), gen_num(c, depth - 1)});                  // product of arbitrary subexpressions
+    case 114: {   // a function of a quadratic body whose quadratic terms cancel once sorted and merged: abs(x*y - y*x + z)
+      Expr x = var_leaf(c), y = var_leaf(c), z = var_leaf(c);
+      return Expr::Op(15, {Expr::Op(0, {Expr::Op(1, {Expr::Op(2, {x, y}), Expr::Op(2, {y, x})}), z})});
+    }
     case 113: { Expr e = gen_num(c, depth - 1); return Expr::Op(2, {e, e}); }                       // e * e (the same subexpression twice)
     case 120: return Expr::Op(15, {gen_num(c, depth - 1)});
     case 121: case 122: {
